@@ -542,32 +542,58 @@ def _ival_eval(e, env):
 def _decide(fn, env):
     """the Choice a choice function answers for these operands: the first satisfied branch, in statement order, of the
     if-chains whose branches name a `Choice::` -> 'Left' / 'Right' / 'Both' (KeyError: outside the subset)"""
+    def has_if(e):
+        return any(True for _ in A.find(e, "If"))
+
+    def eval_block(b):
+        """the Choice named by the first statement of `b` that names one, following taken branches only"""
+        b = A.strip(b) if isinstance(b, dict) else b
+        stmts = A.stmts_of(b) if isinstance(b, dict) and b.get("k") == "Block" else [b]
+        for st in stmts:
+            e = st.get("e", st) if st.get("k") == "ExprStmt" else (st.get("init") if st.get("k") == "Let" else st)
+            if e is None:
+                continue
+            e = A.strip(e)
+            if e.get("k") == "Return" and e.get("e") is not None:
+                e = A.strip(e["e"])
+            if "Choice::" not in A.unparse(e):
+                continue
+            if e.get("k") == "If":
+                r = chain(e)
+                if r is not None:
+                    return r
+                continue
+            if e.get("k") == "Block":
+                r = eval_block(e)
+                if r is not None:
+                    return r
+                continue
+            if has_if(e):
+                # a choice buried in a larger expression: follow its if-chains in order
+                for sub in A.find(e, "If"):
+                    if "Choice::" in A.unparse(sub):
+                        r = chain(sub)
+                        if r is not None:
+                            return r
+                        break
+                continue
+            m = re.findall(r"Choice::(\w+)", A.unparse(e))
+            if m:
+                return m[0]
+        return None
+
     def chain(n):
         # -> variant name, or None when no branch of this chain is taken
         while n is not None and A.strip(n).get("k") == "If":
             n = A.strip(n)
             if _ival_eval(n["cond"], env):
-                m = re.findall(r"Choice::(\w+)", A.unparse(n["then"]))
-                inner = [x for x in A.stmts_of(n["then"]) if A.strip(x.get("e", x) if x.get("k") == "ExprStmt" else x).get("k") == "If"]
-                if inner and not m[:1]:
-                    return chain(A.strip(inner[0].get("e", inner[0])))
-                return m[0] if m else None
+                return eval_block(n["then"])
             n = n.get("else")
         if n is not None:
-            m = re.findall(r"Choice::(\w+)", A.unparse(n))
-            return m[0] if m else None
+            return eval_block(n)
         return None
 
-    for st in A.stmts_of(fn["body"]):
-        e = st.get("e", st) if st.get("k") == "ExprStmt" else (st.get("init") if st.get("k") == "Let" else st)
-        if e is None:
-            continue
-        e = A.strip(e)
-        if e.get("k") == "If" and "Choice::" in A.unparse(e):
-            r = chain(e)
-            if r is not None:
-                return r
-    return None
+    return eval_block(fn["body"])
 
 
 def r_choice_decisions(rule, root=None):
